@@ -50,7 +50,7 @@ pub fn run_case(rng: &mut crate::prng::Rng, rep: &mut Report) {
             _ => 1000 + rng.below(59_001) as i32,
         })
         .collect();
-    let opts = StreamOpts { n_links, cfg: sc, ticks: 5000, probing: rng.chance(1, 2), faults: if rng.chance(1, 2) { Faults::Paths } else { Faults::None }, retransmit_pct: 10 + rng.below(20), control_pct: 5, critical_windows: true, big_jumps: false, initial_windows: Some(windows), loss_permille: *rng.pick(&[0, 10, 40, 100]), stall_min_in_flight_small: false, echo_fuzz: false, rate_pct: 100 };
+    let opts = StreamOpts { n_links, cfg: sc, ticks: 5000, probing: rng.chance(1, 2), faults: if rng.chance(1, 2) { Faults::Paths } else { Faults::None }, retransmit_pct: 10 + rng.below(20), control_pct: 5, critical_windows: true, big_jumps: false, initial_windows: Some(windows), loss_permille: *rng.pick(&[0, 10, 40, 100]), stall_min_in_flight_small: false, echo_fuzz: false, rate_pct: 100, short_sends: false };
     let want_sample = rep.wants_sample();
     let desc = format!("{opts:?}");
     let mut m = ClassicRef::new(timeout);
